@@ -1,0 +1,162 @@
+//! Verification seams (only compiled with the `verif-hooks` cargo feature).
+//!
+//! Nothing in here is part of the public API of the crate. With the feature
+//! off this module does not exist and every caller uses `std` directly.
+//!
+//! * [`clock::now`] reads tokio's clock (which a simulator can pause and
+//!   advance) instead of the operating system's monotonic clock.
+//! * [`yield_point`] is called before every operation on the atomics in
+//!   [`atomic`]; a simulator can install a function that hands control to its
+//!   thread scheduler there.
+//! * [`rng_u64`] lets a simulator replace the jitter randomness by a seeded
+//!   generator.
+
+use std::cell::Cell;
+
+thread_local! {
+    static YIELD_HOOK: Cell<Option<fn()>> = const { Cell::new(None) };
+    static RNG_HOOK: Cell<Option<fn() -> u64>> = const { Cell::new(None) };
+}
+
+/// Installs (or removes) the function called by [`yield_point`] on this thread.
+pub fn set_yield_hook(hook: Option<fn()>) {
+    YIELD_HOOK.with(|h| h.set(hook));
+}
+
+/// Installs (or removes) the generator used by [`rng_u64`] on this thread.
+pub fn set_rng_hook(hook: Option<fn() -> u64>) {
+    RNG_HOOK.with(|h| h.set(hook));
+}
+
+/// Scheduling point: calls the installed hook, if any.
+#[inline]
+pub fn yield_point() {
+    if let Some(f) = YIELD_HOOK.with(|h| h.get()) {
+        f();
+    }
+}
+
+/// Next value of the installed generator, or `None` if there is none.
+#[inline]
+pub fn rng_u64() -> Option<u64> {
+    RNG_HOOK.with(|h| h.get()).map(|f| f())
+}
+
+/// Clock seam.
+pub mod clock {
+    /// Current instant according to tokio's (pausable) clock.
+    #[inline]
+    pub fn now() -> std::time::Instant {
+        tokio::time::Instant::now().into_std()
+    }
+}
+
+/// Atomics that call [`yield_point`](super::yield_point) before every operation.
+pub mod atomic {
+    pub use std::sync::atomic::Ordering;
+
+    macro_rules! wrap_atomic {
+        ($name:ident, $std:ty, $int:ty) => {
+            /// Wrapper around the `std` atomic of the same name.
+            #[derive(Debug, Default)]
+            pub struct $name($std);
+
+            impl $name {
+                /// See `std`.
+                pub const fn new(v: $int) -> Self {
+                    Self(<$std>::new(v))
+                }
+                /// See `std`.
+                #[inline]
+                pub fn load(&self, o: Ordering) -> $int {
+                    super::yield_point();
+                    self.0.load(o)
+                }
+                /// See `std`.
+                #[inline]
+                pub fn store(&self, v: $int, o: Ordering) {
+                    super::yield_point();
+                    self.0.store(v, o)
+                }
+                /// See `std`.
+                #[inline]
+                pub fn swap(&self, v: $int, o: Ordering) -> $int {
+                    super::yield_point();
+                    self.0.swap(v, o)
+                }
+                /// See `std`.
+                #[inline]
+                pub fn compare_exchange(
+                    &self,
+                    c: $int,
+                    n: $int,
+                    s: Ordering,
+                    f: Ordering,
+                ) -> Result<$int, $int> {
+                    super::yield_point();
+                    self.0.compare_exchange(c, n, s, f)
+                }
+                /// See `std` (never fails spuriously here).
+                #[inline]
+                pub fn compare_exchange_weak(
+                    &self,
+                    c: $int,
+                    n: $int,
+                    s: Ordering,
+                    f: Ordering,
+                ) -> Result<$int, $int> {
+                    super::yield_point();
+                    self.0.compare_exchange(c, n, s, f)
+                }
+                /// See `std`.
+                #[inline]
+                pub fn fetch_add(&self, v: $int, o: Ordering) -> $int {
+                    super::yield_point();
+                    self.0.fetch_add(v, o)
+                }
+                /// See `std`.
+                #[inline]
+                pub fn fetch_sub(&self, v: $int, o: Ordering) -> $int {
+                    super::yield_point();
+                    self.0.fetch_sub(v, o)
+                }
+                /// See `std`.
+                #[inline]
+                pub fn fetch_max(&self, v: $int, o: Ordering) -> $int {
+                    super::yield_point();
+                    self.0.fetch_max(v, o)
+                }
+                /// See `std`.
+                #[inline]
+                pub fn fetch_min(&self, v: $int, o: Ordering) -> $int {
+                    super::yield_point();
+                    self.0.fetch_min(v, o)
+                }
+                /// See `std`.
+                #[inline]
+                pub fn fetch_update<F>(
+                    &self,
+                    s: Ordering,
+                    f: Ordering,
+                    mut g: F,
+                ) -> Result<$int, $int>
+                where
+                    F: FnMut($int) -> Option<$int>,
+                {
+                    // one load + CAS loop, each step a scheduling point
+                    let mut prev = self.load(f);
+                    while let Some(next) = g(prev) {
+                        match self.compare_exchange(prev, next, s, f) {
+                            Ok(x) => return Ok(x),
+                            Err(now) => prev = now,
+                        }
+                    }
+                    Err(prev)
+                }
+            }
+        };
+    }
+
+    wrap_atomic!(AtomicU64, std::sync::atomic::AtomicU64, u64);
+    wrap_atomic!(AtomicUsize, std::sync::atomic::AtomicUsize, usize);
+}
